@@ -67,22 +67,28 @@ def cli_stats_case(ctx):
 
     tmp = tempfile.mkdtemp(prefix="synrbl_c18_")
     try:
-        rows = ["C>>C", "CCO>>CC=O", "xx>>C", "CC(=O)OCC>>CC(=O)O", "CC(=O)C>>CC(O)C", "CCCl>>CC"]
-        src, dst = os.path.join(tmp, "in.csv"), os.path.join(tmp, "out.csv")
+        # rule-based, balanced, rejected rows and two MCS rows (confidences about 0.16 and 0.87): the thresholds 0.5 and 0.9
+        # demote one / both of them
+        rows = ["C>>C", "CCO>>CC=O", "xx>>C", "CC(=O)OCC>>CC(=O)O", "CC(=O)C>>CC(O)C", "CCCl>>CC", "CCOCC>>CCO", "C=CC>>CC"]
+        src = os.path.join(tmp, "in.csv")
         with open(src, "w", newline="") as f:
             w = csv.writer(f)
             w.writerow(["reaction"])
             for x in rows:
                 w.writerow([x])
-        impute(src, dst, "reaction", [], 0, n_jobs=2, batch_size=4)
-        st = json.load(open(dst + ".stats"))
-        df = pd.read_csv(dst, keep_default_na=False)
-        out = df.to_dict("records")
-        for r in out:
-            r["solved"] = str(r.get("solved")) == "True"
-            r["solved_by"] = r.get("solved_by") or None
-        statement(ctx, {"inputs": rows, "out": out, "stats": st, "batch_size": 4, "threshold": 0})
-        ctx.count("cli-stats-file-checked")
+        for th, bs in ((0, 4), (0.5, 3), (0.9, None)):
+            dst = os.path.join(tmp, "out_%s.csv" % th)
+            impute(src, dst, "reaction", [], th, n_jobs=2, batch_size=bs)
+            st = json.load(open(dst + ".stats"))
+            df = pd.read_csv(dst, keep_default_na=False)
+            out = df.to_dict("records")
+            for r in out:
+                r["solved"] = str(r.get("solved")) == "True"
+                r["solved_by"] = r.get("solved_by") or None
+            statement(ctx, {"inputs": rows, "out": out, "stats": st, "batch_size": bs, "threshold": th})
+            ctx.count("cli-stats-file-checked")
+            if th and not any(r["solved_by"] == "mcs-based" and not r["solved"] for r in out):
+                ctx.notes.append("CLI statistics case: no MCS row was demoted at threshold %s" % th)
     except Exception as e:
         ctx.violation("cli-stats-run-failed", "impute()", "%s: %s" % (type(e).__name__, e), "synrbl/SynCmd/cmd_run.py:impute")
     finally:
